@@ -92,6 +92,24 @@ def run(ctx):
     k1_before(ctx, "U2-phase-order", where, g, fr, fd, "deferred directory deletions are finished after the renames")
     later = [i for i in ops if any(call_attr(c) in ("upload_file", "upload_symlink", "make_remote_dir") for c in g.nodes[i].calls()) and g.nodes[i].lineno > g.nodes[fr[0]].lineno]
     k1_before(ctx, "U2-phase-order", where, g, fd, later, "kind changes, additions and modifications are uploaded after renames and deletions were finished (a new file can take the name of a renamed or removed one)")
+    # the loops themselves come in the order removed < renamed < [finish] < kind_changed < added < modified
+    hdr = {}
+    for n in g.nodes:
+        if n.kind == "for" and norm(n.ast.iter).startswith("changes."):
+            for part in norm(n.ast.iter).replace(" ", "").split("+"):
+                hdr.setdefault(part.split(".", 1)[1], []).append(n.id)
+    for cat in ("kind_changed", "added", "modified"):
+        if hdr.get(cat):
+            k1_before(ctx, "U2-phase-order", where, g, fd, hdr[cat], f"the {cat} entries are handled only after renames and deferred deletions were finished (a path can be re-used only once its previous occupant has been moved away or deleted)")
+    for a_, b_ in (("removed", "renamed"), ("kind_changed", "added"), ("added", "modified")):
+        if hdr.get(a_) and hdr.get(b_):
+            ctx.check("U2-phase-order", where, not (set(hdr[a_]) & g.reach(hdr[b_])), f"the {a_} loop is not entered after the {b_} loop")
+    k1_before(ctx, "U2-phase-order", where, g, hdr.get("renamed", []), fr, "finish_renames() follows the renamed loop") if hdr.get("renamed") else None
+    f3 = repo.func(UP, f"{U}.delete_remote_dir_maybe")
+    w3 = f"{UP}:{U}.delete_remote_dir_maybe"
+    trs = [t for t in walk_own(f3) if isinstance(t, ast.Try)]
+    ok = len(trs) == 1 and any(call_attr(c) == "_up_rmdir" for s_ in trs[0].body for c in calls_in(s_)) and all(any(call_attr(c) == "append" and call_recv(c) == "self._pending_deletions" for s_ in h.body for c in calls_in(s_)) for h in trs[0].handlers) and not any(call_attr(c) == "append" and call_recv(c) == "self._pending_deletions" for s_ in f3.body if not isinstance(s_, ast.Try) for c in calls_in(s_))
+    ctx.check("U3-deferred-dir-deletion", w3, ok, "a removed directory is deleted at once when it is already empty and deferred only when the rmdir fails", message="delete_remote_dir_maybe no longer tries the rmdir first: an already empty removed directory keeps its name until finish_deletions(), after the renames — a directory renamed onto that name is then deleted (or a file rename onto it fails)")
     dm = calling(g, attr="delete_remote_dir_maybe", recv="self")
     ctx.check("U2-phase-order", where, bool(dm) and not (set(dm) & g.reach(fd)), "directories of removed entries are only scheduled (delete_remote_dir_maybe) before finish_deletions()")
     # ---- U3 -----------------------------------------------------------------------------------
@@ -113,6 +131,7 @@ def run(ctx):
 
 
 MUTANTS = [
+    Mutant("empty removed directories always deferred", UP, "        try:\n            self._up_rmdir(relpath)\n        # any kind of PathError would be OK, though we normally expect\n        # DirectoryNotEmpty\n        except transport_errors.PathError:\n            self._pending_deletions.append(relpath)\n", "        self._pending_deletions.append(relpath)\n", expect="U3-deferred-dir-deletion"),
     Mutant("kind changes no longer uploaded", UP, "            for change in changes.kind_changed:", "            for change in []:", expect="U1-categories-exhaustive"),
     Mutant("added symlinks skipped silently", UP, "                elif change.kind[1] == \"directory\":\n                    self.make_remote_dir(change.path[1])\n                elif change.kind[1] == \"symlink\":", "                elif change.kind[1] == \"directory\":\n                    self.make_remote_dir(change.path[1])\n                elif change.kind[1] == \"tree-reference\":", expect="U1-kinds-dispatched"),
     Mutant("marker written before the modifications", UP, "            for change in changes.modified:", "            self.set_uploaded_revid(self.rev_id)\n            for change in changes.modified:", expect="U2-marker-last"),
